@@ -849,7 +849,8 @@ def gen_case(ctx, spec, maxlen):
         if rng.random() < 0.07:                 # error path: a point outside the grid, the history goes on afterwards
             ctx.count('failing evaluate generated')
             v = bad_point(spec)
-            return [v] * K if rng.random() < 0.5 or K == 1 else [pts['p']] * (K - 1) + [v]
+            mixed = K > 1 and (spec.get('split') or spec.get('graph') == 'i3') and rng.random() < 0.5
+            return [pts['p']] * (K - 1) + [v] if mixed else [v] * K
         v = pts[rng.choice(names)]
         if K == 2 and spec.get('split') and rng.random() < 0.6:     # per-source values: all equal (40 %), else different
             return [pts[rng.choice(names)] for _ in range(K)]
